@@ -135,7 +135,7 @@ func NASDecode(ue *RanUeContext, securityHeaderType uint8, payload []byte) (msg 
 
 		// TODO: Support for ue has nas connection in both accessType
 		if err = security.NASEncrypt(ue.CipheringAlg, ue.KnasEnc, ue.DLCount.Get(), security.Bearer3GPP,
-			security.DirectionUplink, payload); err != nil {
+			security.DirectionDownlink, payload); err != nil {
 			return nil, err
 		}
 	}
